@@ -183,8 +183,8 @@ def _taken_by_removal(ctx: Ctx) -> None:
                     for c in clears:
                         if reg is not None and ls.with_region(c, LOCK) is reg:
                             # from the read, every path leaving the lock region passes the clear
-                            after = cfg.reach(cfg.done(st), cfg.done(c), include_start=False)
-                            if not any(cfg.nodes[i].kind == "with-exit" and cfg.nodes[i].stmt is reg for i in after):
+                            after = cfg.reach(cfg.done(st), cfg.attempt(c), include_start=False)
+                            if not any(cfg.nodes[i].kind == "with-exit" and cfg.nodes[i].stmt is reg and cfg.nodes[i].note == "" for i in after):
                                 ok_clear = True
                     removed = ok_clear
                     if not ok_clear:
@@ -504,9 +504,11 @@ def _stream_caller(ctx: Ctx) -> None:
     skip: set[tuple[int, int]] = set()
     for h in has_ifs:
         skip |= cfg.test_edges(h, "F")
+        for t in cfg.done(h):  # hasattr() itself does not raise: drop the test node's exceptional edge
+            skip |= {(t, v) for v in cfg.succ[t] if cfg.label.get((t, v)) == "exc"}
     md: set[int] = set()
     for m in marks:
-        md |= cfg.done(cfg.stmt_of(m))
+        md |= cfg.attempt(cfg.stmt_of(m))  # reaching the store counts (a failing setattr is not modelled)
     r = cfg.reach(cfg.done(send), md, skip, include_start=False)
     leak = r & {cfg.exit, cfg.raise_exit}
     ctx.check(not leak, "RF-PAIR", "stream-open:marked-on-every-exit-after-send", ca, send,
@@ -518,10 +520,17 @@ def _stream_caller(ctx: Ctx) -> None:
     rd: set[int] = set()
     for g in regs:
         rd |= cfg.done(cfg.stmt_of(g))
-    r2 = cfg.reach({cfg.entry}, rd, skip)
-    ctx.check(not any(cfg.attempt(rt) & r2 for rt in rets), "RF-PAIR", "stream-open:session-registered-before-return", ca, rets[0],
-              ok="the session handed to the caller is registered on the pooled transport first (so close() can see whether it was closed)",
-              bad="a session can be returned without being registered on the pooled transport: an abandoned stream looks like 'no session' only by luck")
+    # evaluated for the case the pool cares about: no earlier session is still registered (an earlier *open* session keeps
+    # the transport doomed whatever happens to the new one, so a repair may legitimately leave it in the slot)
+    reads0 = attr_reads(ca.node, "_last_stream_session")
+    env0: dict[str, object] = {txt(x): None for x in reads0}
+    for n in walk_scope(ca.node):
+        if isinstance(n, (ast.Assign, ast.AnnAssign)) and n.value is not None and any(n.value is x for x in reads0):
+            for t in (n.targets if isinstance(n, ast.Assign) else [n.target]):
+                if isinstance(t, ast.Name):
+                    env0[t.id] = None
+    av0 = edges_under(cfg, ca.node, env0, only=[g for g in walk_scope(ca.node) if isinstance(g, ast.If) and g not in has_ifs]) if env0 else set()
+    r2 = cfg.reach({cfg.entry}, rd, skip | av0)
     # an earlier session must not be forgotten
     reads = [x for x in attr_reads(ca.node, "_last_stream_session")]
     consulted = False
@@ -596,7 +605,7 @@ def _drain_loops(ctx: Ctx, model: ExcModel, m: FunctionInfo, mname: str) -> None
         closed_before = bool(sets) and not (cfg.reach({cfg.entry}, sd) & cfg.attempt(dcall)) if m.name in ("close", "cancel") else True
         events: list[tuple[str, str, str]] = []
         name = last_attr(dcall)
-        passes_cb = name in ("_read_batch_with_log_check", "_dispatch_log_or_error") and _passes_callback(dcall)
+        passes_cb = name in ("_read_batch_with_log_check", "_dispatch_log_or_error") and _passes_callback(dcall, ctx, m)
         if name in ("_read_batch_with_log_check", "_dispatch_log_or_error"):
             events.append(("server-error-batch", "RpcError", "a server error batch (RpcError) met while draining"))
         if passes_cb:
@@ -612,12 +621,22 @@ def _drain_loops(ctx: Ctx, model: ExcModel, m: FunctionInfo, mname: str) -> None
                       "transport and the next borrower of this worker reads the rest of this response")
 
 
-def _passes_callback(c: ast.Call) -> bool:
+def _passes_callback(c: ast.Call, ctx: Ctx | None = None, fi: FunctionInfo | None = None) -> bool:
+    """Does this reader call hand the user's log callback to the dispatcher (argument bound to the callee's `on_log`)?"""
+    if ctx is not None and fi is not None:
+        for callee in ctx.res.resolve(fi, c, heuristic=False):
+            ps = [a.arg for a in callee.node.args.args]
+            if "on_log" in ps:
+                i = ps.index("on_log")
+                a: ast.expr | None = c.args[i] if i < len(c.args) else None
+                for k in c.keywords:
+                    if k.arg == "on_log":
+                        a = k.value
+                return a is not None and not (isinstance(a, ast.Constant) and a.value is None)
     for a in [*c.args[1:], *[k.value for k in c.keywords]]:
         if isinstance(a, ast.Constant) and a.value is None:
             continue
-        t = txt(a)
-        if "on_log" in t:
+        if "on_log" in txt(a):
             return True
     return False
 
@@ -667,7 +686,7 @@ def _unary_reader(ctx: Ctx, model: ExcModel) -> None:
     one(rd_calls, "_read_unary_response in the unary caller", uc)
     fi = ctx.fn(WIRE + ":_read_unary_response")
     cfg = cfg_of(fi.node)
-    cb_calls = [c for c in calls(fi) if last_attr(c) in ("_read_batch_with_log_check", "_dispatch_log_or_error") and _passes_callback(c)]
+    cb_calls = [c for c in calls(fi) if last_attr(c) in ("_read_batch_with_log_check", "_dispatch_log_or_error") and _passes_callback(c, ctx, fi)]
     some(cb_calls, "response read that may run on_log", fi)
     drains = [c for c in calls(fi) if last_attr(c) == "_drain_stream"]
     datt: set[int] = set()
